@@ -69,7 +69,7 @@ class AMask:
         return self.of is arr or (self.of_vid is not None and self.of_vid == getattr(arr, "vid", object()))
 
     def __repr__(self):
-        return f"mask({self.of.side} {self.kind} {self.detail if self.detail is not None else ''})"
+        return f"mask({self.of.side if self.of is not None else 'none'} {self.kind} {self.detail if self.detail is not None else ''})"
 
 
 class LabelKeys:
@@ -94,6 +94,22 @@ class LabelKeys:
         return f"labels({self.value!r}{' cast to ' + '/'.join(self.casts) if self.casts else ''})"
 
 
+class RangeInfo:
+    """np.iinfo(<dtype of an input array>)"""
+
+    def __init__(self, dtype: str):
+        self.dtype = dtype
+
+
+class RangeBound:
+    def __init__(self, dtype: str, which: str):
+        self.dtype = dtype
+        self.which = which
+
+    def __repr__(self):
+        return f"iinfo({self.dtype}).{self.which}"
+
+
 class EmptyTest:
     def __init__(self, arr: AArr, negate: bool):
         self.arr = arr
@@ -112,6 +128,27 @@ class _AMethod:
         self.name = name
 
 
+def _mask_union(a: "AMask", b: "AMask") -> Optional["AMask"]:
+    """union of label-selection masks of the same array values: isin S | eq l  ->  isin S+[l]"""
+
+    def labels(m):
+        if m.kind == "isin" and isinstance(m.detail, (list, tuple)):
+            return list(m.detail)
+        if m.kind == "eq" and not isinstance(m.detail, (list, tuple)):
+            return [m.detail]
+        return None
+
+    la, lb = labels(a), labels(b)
+    if la is None or lb is None:
+        return None
+    if a.of is not None and b.of is not None and not (a.of is b.of or (a.of_vid is not None and a.of_vid == b.of_vid)):
+        return None
+    of = a.of if a.of is not None else b.of
+    out = AMask(of, "isin", la + [x for x in lb if not any(x is y or (isinstance(x, int) and x == y) for y in la)]) if of is not None else AMask(None, "isin", [])
+    out.of_vid = a.of_vid if a.of is not None else b.of_vid
+    return out
+
+
 class ArrInterp(ResultInterp):
     """ResultInterp + abstract arrays."""
 
@@ -123,7 +160,17 @@ class ArrInterp(ResultInterp):
     # -- attribute / method access ------------------------------------------------------
     def get_attr(self, base, attr, node):
         if isinstance(base, LabelKeys):
+            if attr == "dtype":
+                return Sym("dtypeof:labels" + ("->" + base.casts[-1] if base.casts else ""))
+            if attr == "size":
+                return len(base.value) if isinstance(base.value, (list, tuple)) else 1
+            if attr == "ndim":
+                return 1 if isinstance(base.value, (list, tuple)) else 0
             return _AMethod(base, attr)
+        if isinstance(base, RangeInfo):
+            if attr in ("min", "max"):
+                return RangeBound(base.dtype, attr)
+            return Unknown(f"iinfo.{attr}")
         if isinstance(base, AArr):
             if attr in ("shape", "ndim", "size"):
                 return Sym(f"{base.side}.{attr}")
@@ -149,6 +196,8 @@ class ArrInterp(ResultInterp):
                 dt = args[0] if args else None
                 tag = dt.name if isinstance(dt, Sym) else repr(dt)
                 wide = self._dtype(dt) in ("u64", "i64", "f64")
+                if not wide and not a.casts and self._labels_fit(a, tag):
+                    return a  # every label was tested against the bounds of that dtype on this path
                 return a if wide else LabelKeys(a.value, a.casts + (tag,))
             if name in ("copy", "ravel", "flatten", "tolist"):
                 return a
@@ -202,6 +251,20 @@ class ArrInterp(ResultInterp):
             return Unknown("all()")
         return Unknown(f"array.{name}")
 
+    def iterate(self, it, node):
+        if isinstance(it, LabelKeys) and isinstance(it.value, (list, tuple)):
+            return [LabelKeys(v, it.casts) if it.casts else v for v in it.value]
+        return super().iterate(it, node)
+
+    def subscript_hook(self, base, idx, node):
+        if isinstance(base, LabelKeys) and isinstance(base.value, (list, tuple)) and isinstance(idx, int) and not isinstance(idx, bool):
+            try:
+                v = base.value[idx]
+            except IndexError:
+                raise RaiseSignal("IndexError", node)
+            return LabelKeys(v, base.casts) if base.casts else v
+        return super().subscript_hook(base, idx, node)
+
     def _negate(self, u, node):
         d = self.decide(node, u)
         return not d
@@ -224,7 +287,48 @@ class ArrInterp(ResultInterp):
         """one opaque truth value per (array side, dtype question): asked twice, answered alike"""
         return self.root.__dict__.setdefault("_dtype_facts", {}).setdefault(key, Unknown(f"dtype-fact:{key}"))
 
+    def _labels_fit(self, keys: "LabelKeys", dtype_tag: str) -> bool:
+        """Did this path establish  iinfo(dtype).min <= every label <= iinfo(dtype).max ?  The decided
+        range facts (label OP bound) are read off the decisions taken so far."""
+        vals = list(keys.value) if isinstance(keys.value, (list, tuple)) else [keys.value]
+        if not vals or not all(isinstance(v, int) and not isinstance(v, bool) for v in vals):
+            return False
+        lo_ok = hi_ok = False
+        for _n, u, d in self.root.taken:
+            rf = getattr(u, "pv", None)
+            if not (isinstance(rf, tuple) and len(rf) == 5 and rf[0] == "range") or rf[3] != dtype_tag:
+                continue
+            _, v, rel, _dt, which = rf  # fact: v rel bound(which)
+            holds = {"<": (lambda: d), ">": (lambda: d), "<=": (lambda: d), ">=": (lambda: d)}[rel]()
+            # lower bound established: (v < min) is False or (v >= min) is True, for v <= every label
+            if which == "min" and v <= min(vals) and ((rel == "<" and not holds) or (rel == ">=" and holds)):
+                lo_ok = True
+            if which == "max" and v >= max(vals) and ((rel == ">" and not holds) or (rel == "<=" and holds)):
+                hi_ok = True
+        return lo_ok and hi_ok
+
     def compare_hook(self, op, l, r, node):
+        # a label against the bounds of an input's dtype: one memoised range fact per question
+        if isinstance(r, RangeBound) or isinstance(l, RangeBound):
+            rel = {ast.Lt: "<", ast.Gt: ">", ast.LtE: "<=", ast.GtE: ">="}.get(type(op))
+            v, b = (l, r) if isinstance(r, RangeBound) else (r, l)
+            if not isinstance(r, RangeBound) and rel:
+                rel = {"<": ">", ">": "<", "<=": ">=", ">=": "<="}[rel]
+            if isinstance(v, LabelKeys):
+                if v.casts:
+                    # a value already cast to that dtype is within its bounds: the test says nothing
+                    # about the original label any more
+                    return {"<": False, ">": False, "<=": True, ">=": True}.get(rel, Unknown("range compare")) if v.casts[-1] == b.dtype else Unknown("range compare of a cast label")
+                v = v.value
+            if rel and isinstance(v, int) and not isinstance(v, bool):
+                key = ("range", v, rel, b.dtype, b.which)
+                facts = self.root.__dict__.setdefault("_dtype_facts", {})
+                if key not in facts:
+                    u = Unknown(f"range-fact:{v}{rel}{b!r}")
+                    u.pv = ("range", v, rel, b.dtype, b.which)
+                    facts[key] = u
+                return facts[key]
+            return Unknown("range compare")
         if isinstance(l, Sym) and l.name.startswith("dtypekind:") and isinstance(r, str) and isinstance(op, (ast.Eq, ast.NotEq, ast.In, ast.NotIn)):
             u = self._dtype_fact((l.name, r))
             return u if isinstance(op, (ast.Eq, ast.In)) else self._negate(u, node)
@@ -361,6 +465,32 @@ class ArrInterp(ResultInterp):
                 if tgt is m:
                     m.kind = flip
                     return m
+        if name == "numpy.iinfo" and len(args) == 1 and isinstance(args[0], Sym) and args[0].name.startswith("dtypeof:"):
+            return RangeInfo(args[0].name)
+        if name == "numpy.unique" and len(args) == 1 and not kwargs and isinstance(args[0], LabelKeys):
+            k = args[0]
+            if isinstance(k.value, (list, tuple)) and all(isinstance(v, int) and not isinstance(v, bool) for v in k.value) and not k.casts:
+                return LabelKeys(sorted(set(k.value)))
+            return Unknown("np.unique of symbolic / cast labels")
+        if name in ("numpy.zeros",) and args and isinstance(args[0], Sym) and args[0].name.endswith(".shape") and self._dtype(kwargs.get("dtype", args[1] if len(args) > 1 else None)) == "bool" and not (set(kwargs) - {"dtype", "order"}):
+            m = AMask(None, "isin", [])  # all False: the union of no labels
+            m.shape_of = args[0].name[: -len(".shape")]
+            return m
+        if name in ("numpy.zeros_like",) and args and isinstance(args[0], AArr) and self._dtype(kwargs.get("dtype")) == "bool" and not (set(kwargs) - {"dtype", "order"}):
+            m = AMask(None, "isin", [])
+            m.shape_of = args[0].side
+            return m
+        if name == "numpy.logical_or" and len(args) >= 2 and isinstance(args[0], AMask) and isinstance(args[1], AMask) and not (set(kwargs) - {"out"}):
+            tgt = args[2] if len(args) > 2 else out_arr
+            u = _mask_union(args[0], args[1])
+            if u is not None:
+                if tgt is None:
+                    return u
+                if isinstance(tgt, AMask):
+                    tgt.of, tgt.kind, tgt.detail, tgt.of_vid = u.of, u.kind, u.detail, u.of_vid
+                    return tgt
+        if name in ("numpy.asarray", "numpy.ascontiguousarray", "numpy.asanyarray") and args and isinstance(args[0], AMask) and not (set(kwargs) - {"order", "dtype"}) and self._dtype(kwargs.get("dtype")) in (None, "bool"):
+            return args[0]  # a comparison result is a fresh boolean array already
         if isinstance(out_arr, AArr):
             self.root.stores.append((node, out_arr, "out=", None, out_arr.is_fresh()))
         if name in ("numpy.copyto", "numpy.put", "numpy.place", "numpy.putmask") and args and isinstance(args[0], AArr):
@@ -422,6 +552,8 @@ class ArrInterp(ResultInterp):
     def call_builtin(self, name, args, kwargs, node):
         if name == "type" and len(args) == 1 and isinstance(args[0], (AArr, AMask)):
             return Sym("ext:numpy.ndarray")  # the inputs are plain ndarrays (subclasses: fallback paths)
+        if name == "int" and len(args) == 1 and isinstance(args[0], LabelKeys) and not isinstance(args[0].value, (list, tuple)):
+            return args[0].plain()  # the python value of a label scalar (still marked if it went through a cast)
         if name in ("int", "bool") and args and isinstance(args[0], (EmptyTest, Reduction)):
             t = self.truth(args[0], node)
             return int(t) if name == "int" else t
@@ -434,6 +566,10 @@ class ArrInterp(ResultInterp):
         return super().isinstance_hook(v, klass, node)
 
     def binop_hook(self, op, l, r, node):
+        if isinstance(l, AMask) and isinstance(r, AMask) and isinstance(op, ast.BitOr):
+            u = _mask_union(l, r)
+            if u is not None:
+                return u
         if isinstance(l, AMask) and isinstance(r, AMask) and isinstance(op, (ast.BitAnd, ast.BitOr)):
             return AMask(l.of, "other", f"{l!r} {type(op).__name__} {r!r}")
         return super().binop_hook(op, l, r, node)
